@@ -455,6 +455,8 @@ func modeDeco(a args) {
 
 // ---- format x outcome: one child process per case, prints the task's recorded result
 
+var ansiSeq = regexp.MustCompile("\x1b\\[[0-9;]*[A-Za-z]")
+
 type fmtSpec struct {
 	Format  string `json:"format"`
 	Outcome string `json:"outcome"` // success | fail | skipped | before-fails | up-fails | allowed-failure
@@ -493,6 +495,11 @@ func modeFmt1(a args) {
 		f := filepath.Join(a.Work, "long-ansi.txt")
 		os.WriteFile(f, []byte(sb.String()), 0o644)
 		t.Commands = []string{"cat '" + f + "'", "printf 'three\\n'"}
+	case "fail-coloured-tail":
+		// the last write of a failing task ends in an escape sequence followed by text, without a line terminator
+		t.Commands = []string{"printf 'compiling\\033[31mFAILED'; exit 3"}
+	case "ok-coloured-tail":
+		t.Commands = []string{"printf 'compiling\\033[32mDONE'"}
 	case "both-streams":
 		// an external command writing many lines to stdout and stderr at the same time
 		t.Commands = []string{"sh -c 'i=0; while [ $i -lt 1500 ]; do echo out$i; echo err$i >&2; i=$((i+1)); done'", "printf 'three\\n'"}
@@ -511,6 +518,14 @@ func modeFmt1(a args) {
 	res := map[string]interface{}{"k": "fmtresult", "err": err != nil, "errored": t.Errored, "skipped": t.Skipped, "exit_code": t.ExitCode, "output": t.Output()}
 	b, _ := json.Marshal(res)
 	fmt.Fprintln(os.Stdout, string(b))
+	if sp.Format != "cockpit" {
+		// the payload as shown: escape sequences, the task-name prefix and line terminators removed
+		shown := ansiSeq.ReplaceAllString(so.String(), "")
+		shown = strings.ReplaceAll(strings.ReplaceAll(shown, "subject: ", ""), "warm-up: ", "")
+		shown = strings.NewReplacer("\r", "", "\n", "").Replace(shown)
+		vb, _ := json.Marshal(map[string]interface{}{"k": "fmtvisible", "visible": shown})
+		fmt.Fprintln(os.Stdout, string(vb))
+	}
 	out.Count("cases", 1)
 }
 
